@@ -71,9 +71,17 @@ def dedupAux (key : R → Bytes) : List Bytes → List R → List R
 
 def dedupKey (key : R → Bytes) (rs : List R) : List R := dedupAux key [] rs
 
-/-- Outcome of listing one bucket: `none` is the `unwrap` panic on an unparsable integrity. -/
+def Cls.isBad : Cls M → Bool
+  | .bad => true
+  | _ => false
+
+/-- The records a listing considers: those whose integrity parses or is absent (a record with an
+unparsable integrity is no entry and — as in `find` — hides none either). -/
+def Codec.listable (c : Codec R M) (rs : List R) : List R := rs.filter (fun r => !(c.cls r).isBad)
+
+/-- Outcome of listing one bucket: the newest listable record of each key, classified. -/
 def Codec.lsOf (c : Codec R M) (rs : List R) : List (Cls M) :=
-  (dedupKey c.key rs.reverse).map c.cls
+  (dedupKey c.key (c.listable rs).reverse).map c.cls
 
 /-- The live entries listed for one bucket, in de-duplication order (the real code iterates a
 hash set, so only the multiset is observable).  Unparsable integrities are skipped, as in `find`
